@@ -100,6 +100,8 @@ static uint64_t g_clock_ns, g_clock_last_read_step, g_clock_last_value, g_clock_
 static mvsim_probe_cb_t g_probe_cb;
 static int g_rr_left;
 static uint64_t g_func_steps, g_mem_ctr;
+static uint64_t g_vtsc, g_vtsc_delta, g_vtsc_last_step;
+static volatile uint64_t g_wd_last; static volatile int g_wd_idle, g_wd_ticks;
 int mvsim_lib_sched_stacks(unsigned long *lo, unsigned long *hi, int max);
 static unsigned long g_ss_lo[NSLOTS], g_ss_hi[NSLOTS]; static int g_ss_n, g_envs_valid, g_exit_seen;   /* scheduler stacks, snapshot taken at the barrier hooks */
 static uintptr_t c_lo, c_hi;   /* flavour mem: cached own-stack interval; dropped whenever a stack is handed out or released */
@@ -293,7 +295,19 @@ void mvsim_violation(const char *cls, const char *fmt, ...) {
 static char g_altstack[64 * 1024];
 static void crash_handler(int sig, siginfo_t *si, void *uc) {
   if (sig == SIGPROF) {
-    mvsim_violation("STUCK", "no hook reached for the CPU-time limit (run does not terminate)");
+    /* periodic CPU-time tick (10 s).  Only a run that reaches NO hook at all for three ticks in a row is a violation
+       (code looping outside every schedule point); a run that keeps reaching hooks but is slow in real time decides
+       nothing -- it is abandoned and counted, never reported (real time must not produce verdicts). */
+    if (!g_active) return;
+    uint64_t now = g_st.steps;
+    if (now == g_wd_last) { if (++g_wd_idle >= 3) mvsim_violation("STUCK", "no hook reached for 30 s of CPU time (run loops outside every schedule point)"); }
+    else { g_wd_idle = 0; g_wd_last = now; }
+    if (++g_wd_ticks >= 9 && g_wd_idle == 0) {
+      printf("SLOW harness=%s wclass=%s seed=%llu run=%ld steps=%llu\n", g_ctx_harness, g_ctx_class, (unsigned long long)g_ctx_seed, g_ctx_run, (unsigned long long)g_st.steps);
+      fflush(stdout);
+      _exit(11);
+    }
+    return;
   }
   ucontext_t *u = (ucontext_t *)uc;
   mvsim_violation("CRASH", "signal %d (%s) addr=%p rip=%#llx rsp=%#llx", sig, strsignal(sig), si ? si->si_addr : 0,
@@ -310,7 +324,7 @@ static void install_handlers(void) {
 }
 static void watchdog_arm(int seconds) {
   struct itimerval tv; memset(&tv, 0, sizeof tv);
-  tv.it_value.tv_sec = seconds;
+  tv.it_value.tv_sec = seconds; tv.it_interval.tv_sec = seconds;
   setitimer(ITIMER_PROF, &tv, 0);
 }
 
@@ -376,6 +390,7 @@ void mvsim_begin_run(const mvsim_runcfg *c) {
   memset(&g_st, 0, sizeof g_st);
   memset(g_pairmap, 0, sizeof g_pairmap);
   for (int i = 0; i < NSLOTS; i++) { g_w[i].state = W_UNUSED; g_w[i].id = i; }
+  g_vtsc = 1000000; g_vtsc_delta = 64; g_vtsc_last_step = 0; g_wd_last = ~0ULL; g_wd_idle = 0; g_wd_ticks = 0;
   g_func_steps = 0; g_mem_ctr = 0; c_lo = c_hi = 0; g_ss_n = 0; g_envs_valid = 0; g_exit_seen = 0; g_progress = 1; g_sweeps = 0; g_progress_at_sweep = 0; g_drain = 0; g_nspawned = 0; g_ndone = 0;
   g_rr_left = 0;
   mvsim_rng_seed(&g_rng_sched, c->run_seed, 1);
@@ -398,7 +413,7 @@ void mvsim_begin_run(const mvsim_runcfg *c) {
   g_st.max_workers = 1;
   g_st.signature = 0xcbf29ce484222325ULL;
   ledger_reset();
-  watchdog_arm(30);
+  watchdog_arm(10);
   g_active = 1;
 }
 
@@ -800,6 +815,20 @@ int myth_verif_buggify(int site) {
   lv_push(&g_tr_rand, v);
   if (site >= 0 && site < 160) g_st.probe[site] += (uint64_t)(v != 0);
   return v != 0;
+}
+
+/* the library's cycle counter (busy-wait back-off loops spin on it): virtual, so that no verdict and no run time
+   depends on real time.  Not a schedule point.  Consecutive reads with no hook in between (a pure delay loop) make the
+   counter jump by doubling amounts, so a delay of 2^k cycles costs about k reads. */
+int myth_verif_rdtsc(unsigned long long *t) {
+  if (!g_active) return 0;
+  if (g_vtsc_last_step == g_st.steps + 1) { if (g_vtsc_delta < (1ULL << 40)) g_vtsc_delta *= 2; }
+  else g_vtsc_delta = 64;
+  g_vtsc_last_step = g_st.steps + 1;
+  g_vtsc += g_vtsc_delta;
+  g_st.tsc_reads++;
+  *t = g_vtsc;
+  return 1;
 }
 
 int myth_verif_gettime(struct timespec *ts) {
